@@ -571,7 +571,8 @@ def run_batch(pid, tier, batch_seed, budget_s=None, n_runs=None):
         "runs_per_hour": int(agg["evaluations"] / max(wall, 1e-6) * 3600),
         "seeds": {"batch_seed": batch_seed, "first_run": 0, "last_run": max(next_index - 1, 0),
                   "derivation": "seed_i = blake2b('<property>/<VERIF_SEED>/<i>')[:8]"},
-        "simulated_time": "not applicable: lian reads no clock and has no timers; the unit of progress is the logical step (steps_total)",
+        "simulated_time": getattr(engine, "SIMULATED_TIME", "not applicable: the code under test reads no clock and has no timers; the unit of "
+                                  "progress is the logical step (steps_total)"),
         "faults_fired": dict(sorted(agg["faults"].items())),
         "probes": dict(sorted(agg["probes"].items())),
         "probes_at_zero": zero_probes,
